@@ -336,11 +336,24 @@ impl Walrus {
                 };
                 let col_name = md.owned_by;
 
+                // A block holding an entry larger than one unit spans several units. Every
+                // entry header records where its block ends (`next_block_start`); treating such
+                // a block as one unit would misread the payload tail in the following units as
+                // (invalid) block starts, losing the entry, shifting all later block ids and
+                // cutting the scan short.
+                let mut block_limit = DEFAULT_BLOCK_SIZE;
+                if md.next_block_start > block_offset {
+                    let span = md.next_block_start - block_offset;
+                    if span % DEFAULT_BLOCK_SIZE == 0 && block_offset + span <= scan_limit {
+                        block_limit = span;
+                    }
+                }
+
                 // scan entries to compute used
                 let block_stub = Block {
                     id: next_block_id as u64,
                     offset: block_offset,
-                    limit: DEFAULT_BLOCK_SIZE,
+                    limit: block_limit,
                     used: 0,
                     file_path: file_path.clone(),
                     mmap: mmap.clone(),
@@ -352,7 +365,7 @@ impl Walrus {
                             used += consumed as u64;
                             in_block_off += consumed as u64;
                             entries_in_block = entries_in_block.saturating_add(1);
-                            if in_block_off >= DEFAULT_BLOCK_SIZE {
+                            if in_block_off >= block_limit {
                                 break;
                             }
                         }
@@ -366,7 +379,7 @@ impl Walrus {
                 let block = Block {
                     id: next_block_id as u64,
                     offset: block_offset,
-                    limit: DEFAULT_BLOCK_SIZE,
+                    limit: block_limit,
                     used,
                     file_path: file_path.clone(),
                     mmap: mmap.clone(),
@@ -389,7 +402,7 @@ impl Walrus {
                     );
                 }
                 next_block_id += 1;
-                block_offset += DEFAULT_BLOCK_SIZE;
+                block_offset += block_limit;
             }
         }
 
